@@ -75,7 +75,11 @@ class ORM:
             rows2[tbl] = r
             body = conj([f"(select {st.ghost['tbl_' + tbl].s} {r.s})"] + [self.cond(eng, a, rows2, st, old) for a in node.args])
             return f"(exists (({r.s} {r.sort})) {body})"
-        raise KeyError("A-ORM: unsupported filter expression " + ast.unparse(node)[:60])
+        # outside the modelled fragment: an unknown condition on the rows in scope (nothing can be concluded from it)
+        eng.qn = getattr(eng, "qn", 0) + 1
+        eng.note("A-ORM", "filter expression outside the modelled fragment, treated as an unknown row condition: " + ast.unparse(node)[:60], getattr(node, "lineno", 0))
+        names = sorted(rows)
+        return eng.ctx.app(f"unknown_filter_{eng.qn}", [rows[t].sort for t in names], BOOL, [rows[t] for t in names]).s
 
     def operand(self, eng, node, rows, st, old):
         if isinstance(node, ast.Attribute) and isinstance(node.value, ast.Name) and node.value.id in rows:
